@@ -138,7 +138,7 @@ func junkify(rec *world.Recording, L []storage.Message, foreignReinit bool) []st
 				parts = append(parts, types.Participant{DKGPubKey: rec.W.Airs[pi].PubKeyBytes(), OldCommPubKey: nd.KeyPair.Pub, NewCommPubKey: nd.KeyPair.Pub, Name: nd.Name})
 			}
 			fresh := strings.Repeat("cd", 16)
-			re := types.ReDKG{DKGID: fresh, Threshold: rec.W.T, Participants: parts}
+			re := types.ReDKG{DKGID: fresh, Threshold: rec.W.T, Participants: parts, Messages: replayedWithPatches(rec.W, fresh)}
 			out = append(out, storage.Message{DkgRoundID: fresh, Event: string(types.ReinitDKG), Data: world.MustJSON(re), SenderAddr: rec.W.Nodes[1].Name})
 			// ... such as this decline in the last participant's name, signed with another key
 			last := len(rec.W.Nodes) - 1
